@@ -20,6 +20,9 @@ package algo
 // Global tables: the ranges below hold in the zero state and after Init().
 //@ globalinv forall(c, 0, 128, 0 <= asciiCharClasses[c] && asciiCharClasses[c] <= 6)
 //@ globalinv forall(i, 0, 7, forall(j, 0, 7, 0 <= bonusMatrix[i][j] && bonusMatrix[i][j] <= 10))
+// (the next one does not hold in the zero state: it describes the tables after Init, which every entry point of
+//  fzf - and the package's own tests - calls before any matcher; it is proved for Init below and assumed elsewhere)
+//@ globalinv forall(c, 0, 128, (asciiCharClasses[c] == 4) == (65 <= c && c <= 90))
 //@ globalinv 0 <= initialCharClass && initialCharClass <= 6
 //@ globalinv 8 <= bonusBoundaryWhite && bonusBoundaryWhite <= 10 && 8 <= bonusBoundaryDelimiter && bonusBoundaryDelimiter <= 9
 
@@ -336,6 +339,7 @@ package algo
 
 //@ func FuzzyMatchV2
 //@ property C02 C03 C05
+//@ assert @"bonus := bonusMatrix[prevClass][class]" char == foldc(caseSensitive, normalize, at(input, minIdx + off)) && T[off] == char
 //@ requires !DEBUG
 //@ cut @"pos := posArray(withPos, M)" phase 4 (back-trace)
 //@ track init int16 int32
@@ -357,6 +361,8 @@ package algo
 //@   invariant 0 <= prevClass && prevClass <= 6 && 0 <= prevH0 && prevH0 <= 36 && 0 <= maxScore && maxScore <= 36 && 0 <= maxScorePos && maxScorePos <= iter && maxScorePos < N
 //@   invariant pchar0 == pattern[0] && pchar == pattern[pidx < M ? pidx : M - 1]
 //@   invariant forall(k, iter, N, 0 <= T[k] && T[k] <= 1114111)
+//@   invariant forall(k, 0, iter, T[k] == foldc(caseSensitive, normalize, at(input, minIdx + k)))
+//@   invariant forall(k, iter, N, T[k] == at(input, minIdx + k))
 //@ loop 2
 //@   writes H[*], C[*]
 //@   invariant M == len(pattern) && 2 <= M && len(F) == M && len(T) == N && len(B) == N && len(H) == width * M && len(C) == width * M
@@ -416,3 +422,25 @@ package algo
 //@ loop 1
 //@   invariant len(runes) == clen(text) && forall(j, 0, len(runes), runes[j] == at(text, j)) && 0 <= trimmedLen && trimmedLen + lenPattern + trimmedEndLen == clen(text) && 0 <= trimmedEndLen
 //@   invariant match ==> forall(k, 0, iter, norm(pattern[k]) == norm(caseSensitive ? at(text, trimmedLen + k) : uto(1, at(text, trimmedLen + k))))
+
+// Init fills the character-class and bonus tables for a scoring scheme: it establishes the table facts that
+// the matchers assume (globalinv above).
+//@ func Init
+//@ property C02 C03
+//@ entry noglobalinv
+//@ modifies bonusBoundaryWhite, bonusBoundaryDelimiter, delimiterChars, initialCharClass, asciiCharClasses[*], bonusMatrix[*]
+//@ ensures result ==> forall(c, 0, 128, 0 <= asciiCharClasses[c] && asciiCharClasses[c] <= 6)
+//@ ensures result ==> forall(c, 0, 128, (asciiCharClasses[c] == 4) == (65 <= c && c <= 90))
+//@ ensures result ==> forall(i, 0, 7, forall(j, 0, 7, 0 <= bonusMatrix[i][j] && bonusMatrix[i][j] <= 10))
+//@ ensures result ==> 8 <= bonusBoundaryWhite && bonusBoundaryWhite <= 10 && 8 <= bonusBoundaryDelimiter && bonusBoundaryDelimiter <= 9
+//@ loop 1
+//@   invariant 0 <= i && i <= 128 && forall(c, 0, i, 0 <= asciiCharClasses[c] && asciiCharClasses[c] <= 6 && ((asciiCharClasses[c] == 4) == (65 <= c && c <= 90)))
+//@   invariant 8 <= bonusBoundaryWhite && bonusBoundaryWhite <= 10 && 8 <= bonusBoundaryDelimiter && bonusBoundaryDelimiter <= 9
+//@ loop 2
+//@   invariant 0 <= i && i <= 7 && forall(a, 0, i, forall(b, 0, 7, 0 <= bonusMatrix[a][b] && bonusMatrix[a][b] <= 10))
+//@   invariant forall(c, 0, 128, 0 <= asciiCharClasses[c] && asciiCharClasses[c] <= 6 && ((asciiCharClasses[c] == 4) == (65 <= c && c <= 90)))
+//@   invariant 8 <= bonusBoundaryWhite && bonusBoundaryWhite <= 10 && 8 <= bonusBoundaryDelimiter && bonusBoundaryDelimiter <= 9
+//@ loop 3
+//@   invariant 0 <= i && i < 7 && 0 <= j && j <= 7 && forall(a, 0, i, forall(b, 0, 7, 0 <= bonusMatrix[a][b] && bonusMatrix[a][b] <= 10)) && forall(b, 0, j, 0 <= bonusMatrix[i][b] && bonusMatrix[i][b] <= 10)
+//@   invariant forall(c, 0, 128, 0 <= asciiCharClasses[c] && asciiCharClasses[c] <= 6 && ((asciiCharClasses[c] == 4) == (65 <= c && c <= 90)))
+//@   invariant 8 <= bonusBoundaryWhite && bonusBoundaryWhite <= 10 && 8 <= bonusBoundaryDelimiter && bonusBoundaryDelimiter <= 9
